@@ -199,7 +199,7 @@ func genRoots(t *rapid.T, s *Script, rich bool) {
 	o.MaxItems = 3
 	if rich {
 		o.MinList = 1
-		o.MaxRes, o.MaxScope, o.MaxItems, o.MaxList = 2, 2, 2, 2
+		o.MaxRes, o.MaxScope, o.MaxItems, o.MaxList = 2, 2, 2, 4
 		o.PSet = 70
 	}
 	n := rapid.IntRange(2, 3).Draw(t, "nroots")
@@ -264,7 +264,19 @@ func genTargeted(t *rapid.T) Script {
 		return s
 	}
 	// deterministic order (enumeration order is deterministic), uniform choice over types
-	tn := rapid.SampledFrom(names).Draw(t, "type")
+	// half of the cases go to container types (slices, maps): their operation space is much larger
+	var containers []string
+	for _, n := range names {
+		switch byType[n][0].cl {
+		case "mslice", "vslice", "map", "pslice":
+			containers = append(containers, n)
+		}
+	}
+	pool := names
+	if len(containers) > 0 && rapid.Bool().Draw(t, "container") {
+		pool = containers
+	}
+	tn := rapid.SampledFrom(pool).Draw(t, "type")
 	nodes := byType[tn]
 	dst := nodes[rapid.IntRange(0, len(nodes)-1).Draw(t, "dst")]
 	// 1. shape the destination: grow lists, then one FOCUS operation drawn uniformly from the kinds
@@ -326,11 +338,49 @@ func genTargeted(t *rapid.T) Script {
 			return s
 		}
 	}
-	shaping := rapid.IntRange(0, 2).Draw(t, "nshape")
+	// a destination HISTORY: several shaping steps in a row (filter, filter everything, refill by a copy from
+	// another value, grow, pre-size …) — stale storage is produced by sequences, not by single steps
+	maxShape := 2
+	if dst.cl == "mslice" || dst.cl == "vslice" || dst.cl == "map" || dst.cl == "pslice" {
+		maxShape = 5
+	}
+	shaping := rapid.IntRange(0, maxShape).Draw(t, "nshape")
 	for i := 0; i < shaping; i++ {
-		op, ok := drawOpAt(t, m, m.enumerate(), dst, "")
-		if ok && (op.Kind == "copyto" || op.Kind == "moveto" || op.Kind == "moveappend" || op.Kind == "markro") {
-			continue
+		all2 := m.enumerate()
+		var cur2 *nodeInfo
+		for j := range all2 {
+			if all2[j].typ == dst.typ && related(all2[j].addr, dst.addr) && len(all2[j].addr.Path) == len(dst.addr.Path) {
+				cur2 = &all2[j]
+			}
+		}
+		if cur2 == nil {
+			break
+		}
+		var op Op
+		var ok bool
+		switch k := rapid.IntRange(0, 9).Draw(t, "shapekind"); {
+		case k <= 1 && (dst.cl == "mslice" || dst.cl == "vslice"): // drop everything, storage stays
+			_, ref, rok := m.resolve(cur2.addr)
+			if !rok {
+				continue
+			}
+			mask := make([]bool, len(asList(ref.get())))
+			for x := range mask {
+				mask[x] = true
+			}
+			op, ok = Op{Kind: "removeif", At: cur2.addr, Mask: mask}, true
+		case k <= 3: // overwrite by a copy from some other value of the type (possibly an empty one)
+			cs := candidates(all2, *cur2)
+			if len(cs) == 0 {
+				continue
+			}
+			d := cur2.addr
+			op, ok = Op{Kind: "copyto", At: cs[rapid.IntRange(0, len(cs)-1).Draw(t, "shapesrc")].addr, Dst: &d}, true
+		default:
+			op, ok = drawOpAt(t, m, all2, *cur2, "")
+			if ok && (op.Kind == "copyto" || op.Kind == "moveto" || op.Kind == "moveappend" || op.Kind == "markro") {
+				continue
+			}
 		}
 		if add(op, ok) {
 			return s
@@ -505,7 +555,7 @@ func TestPrograms(t *testing.T) {
 }
 
 func TestTargeted(t *testing.T) {
-	vt.Run(t, cTarget, vt.N(5000, 100000), genTargeted, runWith(cTarget))
+	vt.Run(t, cTarget, vt.N(4000, 100000), genTargeted, runWith(cTarget))
 }
 
 func float64frombits(b uint64) float64 { return math.Float64frombits(b) }
